@@ -63,6 +63,11 @@ func (o *OvsMap) UnmarshalJSON(b []byte) (err error) {
 			default:
 				k = f[0]
 			}
+			switch k.(type) {
+			case []interface{}, map[string]interface{}, OvsSet, OvsMap:
+				// not an <atom>, cannot be used as a key
+				return &json.UnmarshalTypeError{Value: reflect.ValueOf(oMap).String(), Type: reflect.TypeOf(*o)}
+			}
 			switch f[1].(type) {
 			case []interface{}:
 				vSet := f[1].([]interface{})
